@@ -57,7 +57,15 @@ func (t *transferIterator) Export() ([]byte, int, error) {
 	return nil, 0, io.EOF
 }
 
-func (k *KVStore) Import(data []byte, f func(uint64, storage.Entry) error) error {
+func (k *KVStore) Import(data []byte, f func(uint64, storage.Entry) error) (err error) {
+	// The table was received from another process. A pack whose index points
+	// outside of its memory must fail the import, not the whole node.
+	defer func() {
+		if r := recover(); r != nil {
+			err = fmt.Errorf("corrupt table pack: %v", r)
+		}
+	}()
+
 	tb, err := table.Decode(data)
 	if err != nil {
 		return err
